@@ -1,4 +1,5 @@
 import PRV.Proofs.C07
+import PRV.Proofs.C07Slow
 /-
 C07 — Task queue served in order; a removed contract stops receiving hashrate.
 The model (`Model/Sched.lean`) is run against the real Scheduler/TaskList on every check; these are
@@ -518,3 +519,152 @@ example : (run (init "p").1 [.add "c0" "d0" 1000 50, .add "c0" "d0" 1000 50, .ad
   decide +kernel
 
 end PRV.Props.C07
+
+/-! ## Destination changes that take time (`Model/SchedSlow.lean`)
+
+The same scheduler with the goroutine's position explicit: events arrive while it is inside the proxy's
+`SetDest`.  The harness runs the real `Scheduler` over a proxy whose `SetDest` blocks until released. -/
+namespace PRV.Props.C07.Slow
+open PRV.Model.SchedSlow PRV.Proofs.C07Slow
+open PRV.Model.Sched (Task TaskList EndKind Out)
+
+def addsTo (cid : String) : Ev → Prop
+  | .add c _ _ _ => c = cid
+  | _ => False
+
+/-- one event from a well-formed state in which the contract's tasks are all removed / finished: the state stays
+well-formed, stays clean unless the event adds a task for the contract, and no `SetDest` is entered towards it -/
+theorem step_core (s : S) (cid : String) (ev : Ev) (hw : WFs s) :
+    WFs (step s ev).1 ∧ (Clean cid s → ¬ addsTo cid ev → Clean cid (step s ev).1 ∧ NoBegin cid (step s ev).2) := by
+  unfold step
+  by_cases hex : s.pc = .exited
+  · simp only [hex, if_true]; exact ⟨hw, fun hc _ => ⟨hc, noBegin_nil cid⟩⟩
+  · simp only [hex, if_false]
+    cases ev with
+    | add c dest job deadline =>
+      have hw1 := wfs_addTask s c dest job deadline hw
+      refine ⟨(wake_spec _ hw1).wf, fun hc hev => ?_⟩
+      exact (clean_wake _ cid hw1 (clean_addTask s cid c dest job deadline hc hev)).2
+    | remove c =>
+      have hw1 := wfs_cancel s c hw
+      exact ⟨(wake_spec _ hw1).wf, fun hc _ => (clean_wake _ cid hw1 (clean_cancel s cid c hc)).2⟩
+    | tick target =>
+      simp only
+      have hw1 : WFs (tickHead s target).1 := by
+        unfold tickHead
+        split
+        · split
+          · exact (wake_spec _ (wfs_now s _ hw)).wf
+          · exact hw
+        · exact hw
+      refine ⟨(wake_spec _ (wfs_now _ _ hw1)).wf, fun hc _ => ?_⟩
+      have h1 := tickHead_spec s cid target hw hc
+      have h2 := clean_wake { (tickHead s target).1 with now := max (tickHead s target).1.now target } cid (wfs_now _ _ h1.1) h1.2.1
+      exact ⟨h2.2.1, noBegin_append cid _ _ h1.2.2 h2.2.2⟩
+    | share diff =>
+      simp only
+      cases hcb : s.cb with
+      | none => exact ⟨hw, fun hc _ => ⟨hc, noBegin_nil cid⟩⟩
+      | some tid =>
+        simp only
+        have hw1 := wfs_credit s tid diff hw
+        refine ⟨(wake_spec _ hw1).wf, fun hc _ => ?_⟩
+        have := clean_wake _ cid hw1 (clean_credit s cid tid diff hc)
+        exact ⟨this.2.1, noBegin_base cid _ _ this.2.2⟩
+    | release =>
+      simp only
+      have ha := arrive_spec s cid hw hex
+      refine ⟨(wake_spec _ ha.1).wf, fun hc _ => ?_⟩
+      have := clean_wake _ cid ha.1 (by intro t ht; rw [ha.2.1] at ht; exact hc t ht)
+      exact ⟨this.2.1, noBegin_append cid _ _ ha.2.2 this.2.2⟩
+    | proxyExit =>
+      have hl := leave_spec s cid hw
+      exact ⟨hl.1, fun hc _ => ⟨fun t ht => hc t (hl.2.1 t ht), hl.2.2⟩⟩
+
+theorem wfs_step (s : S) (ev : Ev) (hw : WFs s) : WFs (step s ev).1 := (step_core s "" ev hw).1
+
+theorem wfs_init (primary : String) : WFs (init primary).1 := by
+  have h0 : WFs ({ primary := primary, cur := primary } : S) :=
+    ⟨rfl, fun _ => rfl, fun h => (by cases h), fun tid d hp => (by cases hp)⟩
+  exact loop_wf _ _ _ (runLoop_spec 3 _ rfl (by simp)) rfl
+
+/-- **every reachable state is well-formed** — the reported queue length is the number of queued tasks, and the
+goroutine holds the head of the queue exactly while it is inside that task's `SetDest` or serving it — for every
+history of events and releases, however they interleave with the destination changes -/
+theorem reachable_wfs (primary : String) (evs : List Ev) : WFs (PRV.Model.SchedSlow.runState (init primary).1 evs) := by
+  suffices ∀ s, WFs s → WFs (PRV.Model.SchedSlow.runState s evs) from this _ (wfs_init primary)
+  induction evs with
+  | nil => intro s h; exact h
+  | cons e es ih => intro s h; exact ih _ (wfs_step s e h)
+
+/-- **a `SetDest` is entered only for a live task**: whenever the scheduler starts pointing the miner at a task's
+destination, that task is queued, was neither removed nor finished, and is not past its deadline -/
+theorem begin_is_live (s : S) (hw : WFs s) (d : String) (t : Task) (h : OutS.begin d (some t) ∈ (wake s).2) :
+    t ∈ s.tl.tasks ∧ t.dest = d ∧ t.cancelled = false ∧ s.now < t.deadline :=
+  (wake_spec s hw).begins d t h
+
+/-- a task is ended with "done" only if it was removed or its work was submitted, with "deadline" only past its deadline -/
+theorem end_cause (s : S) (hw : WFs s) (tid : Nat) (rm : Int) (k : EndKind) (h : OutS.base (.onEnd tid rm k) ∈ (wake s).2) :
+    ∃ t ∈ s.tl.tasks, t.tid = tid ∧ ((k = .done ∧ t.cancelled = true) ∨ (k = .deadline ∧ t.deadline ≤ s.now)) :=
+  (wake_spec s hw).ends_ok tid rm k h
+
+/-- **removing a contract**: afterwards none of its tasks is queued un-cancelled, and the removal itself does not
+point the miner at it — also when it arrives while the scheduler is inside a `SetDest` -/
+theorem remove_cleans (s : S) (cid : String) (hw : WFs s) (hex : s.pc ≠ .exited) :
+    Clean cid (step s (.remove cid)).1 ∧ NoBegin cid (step s (.remove cid)).2 := by
+  unfold step
+  simp only [hex, if_false]
+  exact (clean_wake _ cid (wfs_cancel s cid hw) (cancel_cleans s cid)).2
+
+/-- … and **it stays that way**: no later event other than a new task for that contract makes the scheduler enter a
+`SetDest` towards it (a destination change that was already under way when the removal arrived completes, and the
+task is dropped at once) -/
+theorem step_clean (s : S) (cid : String) (ev : Ev) (hw : WFs s) (hc : Clean cid s) (hev : ¬ addsTo cid ev) :
+    Clean cid (step s ev).1 ∧ NoBegin cid (step s ev).2 := (step_core s cid ev hw).2 hc hev
+
+/-- **a removed contract is not pointed at again, for every later history** without a new task for it -/
+theorem removed_contract_never_begun (s : S) (cid : String) (evs : List Ev) (hw : WFs s) (hex : s.pc ≠ .exited)
+    (hevs : ∀ ev ∈ evs, ¬ addsTo cid ev) :
+    ∀ outs ∈ PRV.Model.SchedSlow.run (step s (.remove cid)).1 evs, NoBegin cid outs := by
+  have h0 := remove_cleans s cid hw hex
+  have hw0 := wfs_step s (.remove cid) hw
+  generalize (step s (.remove cid)).1 = s1 at h0 hw0
+  have hc := h0.1
+  clear h0
+  induction evs generalizing s1 with
+  | nil => intro outs ho; cases ho
+  | cons e es ih =>
+    intro outs ho
+    unfold PRV.Model.SchedSlow.run at ho
+    rcases List.mem_cons.mp ho with ho | ho
+    · subst ho
+      exact (step_clean s1 cid e hw0 hc (hevs e List.mem_cons_self)).2
+    · exact ih (fun ev hev => hevs ev (List.mem_cons_of_mem _ hev)) _ (wfs_step s1 e hw0)
+        (step_clean s1 cid e hw0 hc (hevs e List.mem_cons_self)).1 outs ho
+
+/-- when the proxy answers, the destination and the callback installed are the ones of the `SetDest` that was entered -/
+theorem release_installs (s : S) (tid : Nat) (dest : String) (hw : WFs s) (hpc : s.pc = .toTask tid dest) :
+    (step s .release).1.cur = dest ∧ (step s .release).1.cb = some tid ∧
+    OutS.base (.setDest dest true) ∈ (step s .release).2 := by
+  have hex : s.pc ≠ .exited := by rw [hpc]; simp
+  have ha := arrive_spec s "" hw hex
+  have hav : arrive s = ({ s with cur := dest, cb := some tid, pc := .serving }, [.base (.setDest dest true)]) := by
+    unfold arrive; rw [hpc]
+  unfold step
+  simp only [hex, if_false]
+  have sp := wake_spec (arrive s).1 ha.1
+  refine ⟨by rw [sp.cur, hav], by rw [sp.cb, hav], ?_⟩
+  rw [hav]; exact List.mem_append_left _ List.mem_cons_self
+
+-- the hypotheses are met: a task is added and removed while the scheduler is inside `SetDest(primary)`
+example : (PRV.Model.SchedSlow.run (init "p").1 [.add "c0" "d0" 1000 50, .remove "c0", .release, .release]) =
+    [[], [], [OutS.base (.setDest "p" false), OutS.begin "p" none], [OutS.base (.setDest "p" false)]] := by
+  decide +kernel
+
+-- … and a removal that arrives while the scheduler is inside the task's own `SetDest`: the change completes and the
+-- task is dropped at once
+example : (PRV.Model.SchedSlow.run (init "p").1 [.release, .add "c0" "d0" 1000 50, .remove "c0", .release]).getLast? =
+    some [OutS.base (.setDest "d0" true), OutS.base (.onEnd 0 1000 .done), OutS.begin "p" none] := by
+  decide +kernel
+
+end PRV.Props.C07.Slow
